@@ -7,7 +7,6 @@
 #include <unordered_set>
 #include <vector>
 
-extern "C" void __sanitizer_set_death_callback(void (*)(void));
 extern "C" size_t LLVMFuzzerMutate(uint8_t *Data, size_t Size, size_t MaxSize);
 
 int verif_trace_on;
@@ -30,7 +29,7 @@ static void init_once() {
   g_force_trace = getenv("VERIF_TRACE") != NULL;
   g_stats_path = getenv("VERIF_STATS");
   if (const char *k = getenv("VERIF_KNOWN")) { std::string s(k), cur; for (char c : s) { if (c == ',') { if (!cur.empty()) g_known.push_back(cur); cur.clear(); } else cur.push_back(c); } if (!cur.empty()) g_known.push_back(cur); }
-  __sanitizer_set_death_callback(verif_stats_flush);
+  // NB: do not install a sanitizer death callback here: libFuzzer uses it to save the crashing input
   atexit(verif_stats_flush);
 }
 
@@ -59,7 +58,7 @@ extern "C" void verif_case_end(int nontrivial, uint64_t h) {
       g_samples.push_back(s);
     }
   }
-  if ((g_evals & 0xfff) == 0) verif_stats_flush();
+  if ((g_evals & 0x3ff) == 0) verif_stats_flush();
 }
 extern "C" int verif_known(const char *key) { init_once(); for (auto &k : g_known) if (k == key) return 1; return 0; }
 extern "C" void verif_known_skipped(const char *key) { g_known_skipped++; g_known_hits[key]++; }
